@@ -185,7 +185,7 @@ def shape_array(coll, n, container="array"):
 def shape_pois(k):
     st = ["let o0 = new_%s(6);" % k.lower()]
     return Shape("po_" + k.lower(), "pois", st, ["let coll = Poisonable::new(o0);"], "Poisonable::<%s>" % k,
-                 [("6", k, "&o0")], k == "R", guard=["**g"], rguard=["**g"])
+                 [("6", k, "&o0")], k == "R", guard=["*g"], rguard=["*g"])
 
 
 def shape_nested(name):
